@@ -30,7 +30,7 @@ RULE = (
 BUDGET = {'quick': (30000, 55), 'thorough': (2_000_000, 600)}
 COMPONENTS = dict(common.COMPONENTS, real=common.COMPONENTS['real'] + [
     'plumpy.workchains (WorkChain._do_step, to_context, Waiting with awaitables, steppers)', 'Process.launch (children)'])
-ASSUMPTIONS = ['bare futures are completed with a value or an exception, not cancelled (outside the stated mix)', 'FIFO ready queue']
+ASSUMPTIONS = ['FIFO ready queue']
 EXPECTED_COUNTERS = ['probe:same_key_twice_in_one_step', 'probe:paused_around_completions', 'shape:if_last', 'shape:while_last', 'shape:nested_if', 'probe:all_items_already_complete', 'probe:child_launched_in_earlier_step', 'items:1', 'items:2', 'items:3', 'items:4', 'probe:child_killed', 'probe:future_failed', 'probe:child_raised',
                      'probe:reassigned_key', 'probe:completed_before_waiting', 'via:ret', 'via:call', 'via:both', 'end:finished',
                      'end:excepted']
@@ -172,7 +172,7 @@ def random_case(rng, tier):
             continue  # left to the drive-out
         if rng.random() < 0.5:
             position = rng.randint(0, ticks + 2)
-        how = 'value' if rng.random() < 0.75 else 'exc'
+        how = 'value' if rng.random() < 0.75 else ('exc' if rng.random() < 0.75 else 'cancel')  # a cancelled item is a failed one
         value = f'v{fut}' if rng.random() < 0.85 else '__uncopyable__'
         schedule.append({'act': 'complete', 'fut': fut, 'how': how, 'v': value, 'at': position})
         if how == 'exc' and rng.random() < 0.4:
@@ -354,6 +354,9 @@ def _oracle(engine, result, case, drive):
         if state != 'excepted':
             result.violate('failure_ignored', failing_barrier, f'an item awaited after {failing_barrier} failed or was killed '
                                                                f'but the workchain ended {state} (drive-out: {drive})')
+        elif 'Cancelled' in type(proc.exception()).__name__ and any(
+                awaitable(aref) is not None and awaitable(aref).cancelled() for _, aref in barriers[failing_barrier]):
+            result.counters['probe:awaited_item_cancelled'] += 1  # (a cancelled item has no exception instance of its own)
         elif not any(proc.exception() is exc for exc in own):
             result.violate('wrong_exception', failing_barrier, f'exception() is {proc.exception()!r}, the failing items raised '
                                                                f'{own!r}')
